@@ -18,6 +18,12 @@ import (
 	"strings"
 )
 
+// callEdge: inside function `from`, a call of a function / method named `to` with these mutexes held
+type callEdge struct {
+	from, to string
+	held     []string
+}
+
 type lockSite struct {
 	what  string // hook kind, or call:queue.Put / call:queue.Close
 	fn    string
@@ -61,6 +67,26 @@ func extractLocks(repo string) ([]lockSite, error) {
 		return nil, err
 	}
 	var sites []lockSite
+	var edges []callEdge
+	declared := map[string]string{} // bare function / method name → qualified name (names are unique enough in writer.go)
+	for _, d := range f.Decls {
+		if fd, ok := d.(*ast.FuncDecl); ok {
+			_, typ := recvTypeName(fd)
+			q := fd.Name.Name
+			if typ != "" {
+				q = typ + "." + q
+			}
+			key := fd.Name.Name
+			if typ != "" {
+				key = "." + key // methods are called through a selector, plain functions by name (`close(ch)` is the builtin)
+			}
+			if _, dup := declared[key]; dup {
+				declared[key] = "" // ambiguous: never inherit through it
+			} else {
+				declared[key] = q
+			}
+		}
+	}
 	for _, d := range f.Decls {
 		fd, ok := d.(*ast.FuncDecl)
 		if !ok || fd.Body == nil {
@@ -86,6 +112,16 @@ func extractLocks(repo string) ([]lockSite, error) {
 				call, ok := m.(*ast.CallExpr)
 				if !ok {
 					return true
+				}
+				callee := ""
+				switch fn := call.Fun.(type) {
+				case *ast.Ident:
+					callee = fn.Name
+				case *ast.SelectorExpr:
+					callee = "." + fn.Sel.Name
+				}
+				if q := declared[callee]; q != "" && callee != ".Put" && callee != ".Close" && callee != ".Get" {
+					edges = append(edges, callEdge{fname, q, append([]string(nil), held...)})
 				}
 				if id, ok := call.Fun.(*ast.Ident); ok && id.Name == "verifEvent" && len(call.Args) > 0 {
 					if lit, ok := call.Args[0].(*ast.BasicLit); ok {
@@ -169,6 +205,45 @@ func extractLocks(repo string) ([]lockSite, error) {
 			}
 		}
 		walkBlock(fd.Body.List, nil)
+	}
+	// locks inherited from the callers: a helper extracted from a critical section is still inside it when every call
+	// of the helper in this file happens with the lock held (callers' own inherited locks included; 3 rounds suffice)
+	entry := map[string][]string{}
+	for round := 0; round < 3; round++ {
+		next := map[string][]string{}
+		seen := map[string]bool{}
+		for _, e := range edges {
+			h := append(append([]string(nil), e.held...), entry[e.from]...)
+			if !seen[e.to] {
+				seen[e.to] = true
+				next[e.to] = h
+				continue
+			}
+			var both []string
+			for _, x := range next[e.to] {
+				for _, y := range h {
+					if x == y {
+						both = append(both, x)
+						break
+					}
+				}
+			}
+			next[e.to] = both
+		}
+		entry = next
+	}
+	for i := range sites {
+		have := map[string]bool{}
+		for _, l := range sites[i].locks {
+			have[l] = true
+		}
+		for _, l := range entry[sites[i].fn] {
+			if !have[l] {
+				have[l] = true
+				sites[i].locks = append(sites[i].locks, l)
+			}
+		}
+		sort.Strings(sites[i].locks)
 	}
 	sort.SliceStable(sites, func(i, j int) bool {
 		if sites[i].what != sites[j].what {
